@@ -126,6 +126,13 @@ func (e *L2Enc) Add(c ChunkSpec) error {
 // EncodeAlone synthesises a classic .lzma stream from operations.
 // mode: "marker" (size unknown + marker), "size" (size only), "both".
 func EncodeAlone(p Props, dictSize uint32, ops []Op, mode string, force bool) (stream, plain []byte, err error) {
+	return EncodeAloneML(p, dictSize, ops, mode, force, 0)
+}
+
+// EncodeAloneML is EncodeAlone with the length field of the end marker chosen by the caller
+// (0 = 2, what encoders usually write). The format identifies the marker by its distance
+// alone: any length 2..273 is legal.
+func EncodeAloneML(p Props, dictSize uint32, ops []Op, mode string, force bool, markerLen int) (stream, plain []byte, err error) {
 	ds := int64(dictSize)
 	if ds < 4096 {
 		ds = 4096
@@ -139,7 +146,7 @@ func EncodeAlone(p Props, dictSize uint32, ops []Op, mode string, force bool) (s
 		}
 	}
 	if mode == "marker" || mode == "both" {
-		EncodeOp(rc, m, w, Op{K: OpEos}, true)
+		EncodeOp(rc, m, w, Op{K: OpEos, Len: markerLen}, true)
 	}
 	data := rc.finish()
 	h := make([]byte, 13)
